@@ -39,7 +39,7 @@ DEFAULT_PROFILE = {
     "runs": (1, 5), "split_identical": 0.25, "tab": 0.12, "br": 0.08, "opaque": 0.06, "ins": 0.18, "del": 0.15,
     "subst": 0.10, "comment": 0.15, "point_comment": 0.03, "reply": 0.4, "bookmark": 0.06, "proof": 0.05,
     "hyperlink": 0.05, "field": 0.04, "header": 0.25, "footer": 0.2, "fmt": 0.45, "empty_run": 0.04,
-    "span": 0.12, "vmerge": 0.08, "overlap_comment": 0.06, "para_mark_rev": 0.0, "comment_in_ins": 0.3, "multi_author": True, "literal_tab": 0.02,
+    "span": 0.12, "vmerge": 0.08, "overlap_comment": 0.06, "para_mark_rev": 0.0, "sect_break": 0.04, "comment_in_ins": 0.3, "multi_author": True, "literal_tab": 0.02,
 }
 
 
@@ -297,6 +297,9 @@ class Gen:
             f = {"b": r.choice(["", "1"]), "i": None, "rest": ""}
             return {"style": None, "ppr": "", "nodes": [{"k": "r", "run": {**f, "ch": [{"k": "t", "s": self.phrase(2).upper()}]}}]}
         ppr = r.choice(PPRS)
+        if self.chance("sect_break"):
+            ppr += '<w:sectPr><w:pgSz w:w="12240" w:h="15840"/><w:cols w:space="720"/></w:sectPr>'
+            self.features.add("sect_break")
         if self.chance("para_mark_rev"):
             self.pm_rev = getattr(self, "pm_rev", 900) + 1
             kind = r.choice(["ins", "del"])
